@@ -306,6 +306,8 @@ class KDQTreeNode:
             n <= count_ubound
             or np.unique(data).size <= count_ubound
             or new_cell_size <= min_cutpoint_sizes[axis]
+            # adjacent doubles: the midpoint rounds up to the maximum, nothing lies above it
+            or midpoint_at_axis >= np.max(data[:, axis])
         ):
             leaf = KDQTreeNode({"build": n}, None, None, None, None)
             leaves.append(leaf)
